@@ -191,6 +191,10 @@ def edit_and_resolve(s, cases, rng, rail_rep, kw):
     movable = [n for n in leaves if [h for h in hosts if h != n and h not in comps[n]["par"]]]
     kinds = (["phases_dur", "phases_names", "phases_clear"] if st["sysph"] else []) + (["rerail"] if railrefs else []) + \
             (["del_muxin"] if muxin else []) + (["move_leaf"] if movable else []) + (["replace_inner"] if inner else [])
+    # components that carry a phase configuration: replacing one drops its configuration (change_comp documents that)
+    confd = [n for n, c in comps.items() if c["pconf"]["t"] != "none" and c["pconf"]["v"]] if st["sysph"] else []
+    kinds += ["replace_conf_reset"] if confd else []
+    kinds += ["rename"]         # (a source or an inner component gets another name after the system has been analysed)
     if not kinds:
         return
     # stratified: the applicable kind that has been used least so far in this run (ties broken at random)
@@ -240,6 +244,20 @@ def edit_and_resolve(s, cases, rng, rail_rep, kw):
             s.del_comp(n)
             s.add_comp(h, comp=build(desc_of(comps[n])), group=comps[n]["group"], rail=comps[n]["rail"])
             what = "moved %s below %s" % (n, h)
+        elif kind == "rename":
+            srcs = [n for n, c in comps.items() if not c["par"]]
+            n = rng.choice(srcs if (rng.random() < 0.6 or not inner) else inner)
+            d = desc_of(comps[n])
+            d["name"] = "rn_" + n
+            # (a rename may not keep the component's own rail name: it gets a new one when it had one)
+            s.change_comp(n, comp=build(d), group=comps[n]["group"], rail=("rr_" + comps[n]["rail"]) if comps[n]["rail"] else "")
+            what = "renamed %s" % n
+        elif kind == "replace_conf_reset":
+            # a component with a phase configuration is replaced by an equal one and NOT configured again: it now has no
+            # phase configuration and must behave as in a system without phases (the table is held to the projected state)
+            n = rng.choice(confd)
+            s.change_comp(n, comp=build(desc_of(comps[n])), group=comps[n]["group"], rail=comps[n]["rail"])
+            what = "replaced %s (phase-configured) by an equal component without configuring it again" % n
         else:
             n = rng.choice(inner)
             s.change_comp(n, comp=build(desc_of(comps[n])), group=comps[n]["group"], rail=comps[n]["rail"])
@@ -335,7 +353,7 @@ def _run(ctx, prop, n_q, n_t, rule, gen_kw=None, case_kw=None, filt=None, varian
     # hand-built scenarios (structural situations random generation reaches only now and then), also solved phase by phase
     import scenarios
     sc = []
-    for name, s_or_exc, kw in scenarios.build_all():
+    for name, s_or_exc, kw in scenarios.build_all() + scenarios.build_histories():
         if isinstance(s_or_exc, Exception):
             sc.append(drv_solve.BuildFailure(None, "scenario " + name, {}, s_or_exc).case(4 * 10 ** 6 + len(sc)))
             continue
